@@ -61,6 +61,13 @@ one object that feed each other: t.a <- s.x, t.b <- bind(f, s.x, t.a), chains a 
 watcher on a linked parameter that changes the source again while the sync is being delivered) and
 CK -- linked parameters declared constant=True (a refused assignment of a plain value / a new
 reference must change nothing).
+
+Two more in bounded/c08_nm.py (see its docstring): NF -- bound functions that take another bound / depends
+function as an argument, the inner function depending on same-named parameters of two different objects
+(positional / keyword / 3 levels / mixed with constants), every source updated in every order; MC -- a
+nested_refs parameter linked to a mutable container that is modified in place and assigned again (the same
+object or a fresh copy): it must mirror the container's current content, follow the added sources and drop
+the removed ones.
 """
 import itertools
 import logging
@@ -75,6 +82,7 @@ from concurrent.futures import ProcessPoolExecutor
 from bounded._api import Bounded, REPLAY_HEADER
 from bounded import c08_ext
 from bounded import c08_rj
+from bounded import c08_nm
 
 PRELUDE = '''import logging, warnings
 import param
@@ -596,7 +604,7 @@ def _run(tier, seed):
               "skipping bind@s1} x link mode x relink targets {skipping bind, P}; histories additionally over "
               "{z1, z2: move a source to a value for which the reference skips}. "
               "A case = (configuration, history of maximal length); shorter histories are its prefixes. "
-              + c08_ext.RULE + ' ' + c08_rj.RULE),
+              + c08_ext.RULE + ' ' + c08_rj.RULE + ' ' + c08_nm.RULE),
         bound=("quick: all histories of length <= 2 over 8 operations on the 162 core configurations and a seeded "
                "1/3 of the other 744 + a seeded 1/8 sample of the length-3 histories on the core; skip family: all "
                "histories of length <= 2 over 10 operations on %d configurations" % len(skip_configs('quick'))
@@ -606,7 +614,7 @@ def _run(tier, seed):
                "skip family: all histories of length <= 3 over 10 operations on the %d configurations of the quick "
                "tier, length <= 2 on the other %d (second relink target of p2, shared-source p2, nested_refs=False)"
                % (len(skip_configs('quick')), len(skip_configs('thorough')) - len(skip_configs('quick'))))
-        + '; ' + c08_ext.bound_text(tier) + '; ' + c08_rj.bound_text(tier)
+        + '; ' + c08_ext.bound_text(tier) + '; ' + c08_rj.bound_text(tier) + '; ' + c08_nm.bound_text(tier)
         + '; context forms (CX): %d ways of calling update(...) x pre {-,rl1,rl2,ov2,u1} x post {u1,u2,ov1,rl2} on the '
           '%s' % (len(CXOPS), 'core configurations (pre=-, post = update of the source of each suspended link complete, the rest a seeded 1/24)' if tier == 'quick'
                   else 'core configurations, 4 pre/post shapes on all the others'))
@@ -667,6 +675,12 @@ def _run(tier, seed):
     rtasks = c08_rj.tasks(tier, seed)
     nr = max(1, len(rtasks) // 400)
     rchunks = [rtasks[i::nr] for i in range(nr)]
+    ntasks = c08_nm.tasks(tier, seed)
+    rnd.shuffle(ntasks)
+    nn = max(1, len(ntasks) // 150)
+    nchunks = [ntasks[i::nn] for i in range(nn)]
+    B.note('families NF / MC (nested functions, mutable containers): %d histories' % len(ntasks))
+    nallv = []
     rallv = []
     allv = []
     xallv = []
@@ -674,6 +688,7 @@ def _run(tier, seed):
     with ProcessPoolExecutor(max_workers=min(16, os.cpu_count() or 4)) as ex:
         xfuts = [ex.submit(c08_ext.run_chunk, c) for c in xchunks if c]
         rfuts = [ex.submit(c08_rj.run_chunk, c) for c in rchunks if c]
+        nfuts = [ex.submit(c08_nm.run_chunk, c) for c in nchunks if c]
         futs = [ex.submit(run_chunk, c) for c in chunks if c]
         for fu in rfuts:
             for key, nval, nleak, _n, viols in fu.result():
@@ -681,6 +696,12 @@ def _run(tier, seed):
                 B.checked('C08/mirror/value == resolve(reference)', nval)
                 B.checked('C08/override-relink/old sources keep no watcher of the target', nleak)
                 rallv += viols
+        for fu in nfuts:
+            for key, nval, nleak, _n, viols in fu.result():
+                B.case(key=key)
+                B.checked('C08/mirror/value == resolve(reference)', nval)
+                B.checked('C08/override-relink/old sources keep no watcher of the target', nleak)
+                nallv += viols
         for fu in xfuts:
             for key, nval, nleak, nref, viols in fu.result():
                 B.case(key=key)
@@ -735,6 +756,7 @@ def _run(tier, seed):
                         (nsteps, cfg_rank(rep['cfg']))))
     reports += c08_ext.reports(xallv)
     reports += c08_rj.reports(rallv)
+    reports += c08_nm.reports(nallv)
     reports.sort(key=lambda r: (r[0], r[5], r[1]))
     per_clause, kept = {}, []
     for r in reports:
